@@ -69,7 +69,15 @@ ReadEnd ==
   /\ l' = l + 1
   /\ UNCHANGED <<held, limit, maxForce>>
 
-Next == ReadReset \/ ReadBegin \/ ReadEnd \/ \E i \in Ids : Lin(i)
+(* the driver's watchdog: nothing has returned for ten seconds, Log[l].pending calls are still open. For a pool that is   *)
+(* acceptable only while the capacity is in use - callers pending with capacity free is not a behaviour of the gate (C19). *)
+ReadStuck ==
+  /\ l <= Len(Log) /\ Log[l].t = "stuck"
+  /\ ~(held < limit /\ Log[l].v > 0)
+  /\ l' = l + 1 /\ open' = <<>>
+  /\ UNCHANGED <<held, limit, maxForce>>
+
+Next == ReadReset \/ ReadBegin \/ ReadEnd \/ ReadStuck \/ \E i \in Ids : Lin(i)
 
 (* consequence of the contract, evaluated in every state of the search *)
 NeverOver == held <= maxForce
